@@ -156,14 +156,14 @@ Proof.
       set (tot' := merge_qprs tot (map (frac_search p lim) C) (p_limit p) (p_hist p) (p_order p)).
       destruct (IH p c rem' tot' (p_limit p - ensured (p_order p) (q_ids tot') rem') (done ++ C))
         as [res [Hr Hi]]; auto.
-      * unfold rem'. rewrite skipn_length. simpl in *. lia.
+      * unfold rem'. rewrite skipn_length. simpl length in Hf |- *. lia.
       * apply KS_skipn; auto.
       * unfold tot'. rewrite merge_ids. fold o L S.
         rewrite map_map.
         rewrite (map_ext _ (fun g => topk o lim (hit_ids p g))) by (intros; apply frac_search_ids).
         rewrite <- (map_map (hit_ids p) (topk o lim)).
         rewrite HL. rewrite step_ids; auto.
-        -- fold (all_hit_ids p C). unfold S. rewrite HI. rewrite topk_app_l, all_hit_ids_app. reflexivity.
+        -- fold (all_hit_ids p C). rewrite HI. rewrite topk_app_l, all_hit_ids_app. reflexivity.
         -- intros z b x Iz Ib Ix. apply in_map_iff in Ib. destruct Ib as [g [<- Ig]].
            eapply (ensured_final o p f r S z g x); eauto. eapply in_firstn; eauto.
       * exists res. split; auto. rewrite Hi. rewrite <- app_assoc. unfold C, rem'.
@@ -186,7 +186,7 @@ Theorem search_docs_ids : forall p fpi prepared,
 Proof.
   intros p fpi prepared K. unfold search_docs.
   destruct prepared as [|f r] eqn:E.
-  - simpl. exists empty_qpr. split; auto.
+  - simpl. exists empty_qpr. split; auto. unfold topk, norm. simpl. destruct (p_limit p); reflexivity.
   - rewrite <- E in *.
     apply (loop_ids (length prepared) p _ prepared empty_qpr (p_limit p) []); auto.
     + destruct (fpi =? 0) eqn:Z; [subst; simpl; lia | apply Nat.eqb_neq in Z; lia].
@@ -246,9 +246,9 @@ Proof.
       rewrite andb_false_r; auto.
     - assert ((p_from p <=? mid (d_id d))%N = false) as -> by (apply N.leb_gt; lia).
       rewrite andb_false_r; auto. }
-  induction f as [|d f IH]; simpl; auto.
+  clear H. induction f as [|d f IH]; simpl; auto.
   rewrite (N d) by (left; auto). apply IH.
-  - intros; apply N; right; auto.
+  intros; apply N; right; auto.
 Qed.
 
 (* hits of the searched fractions = hits of the whole layout *)
